@@ -12,7 +12,7 @@ from checks import v3hist
 from vlib import core, drivers, gen
 
 LEVEL = "exploration"
-REPLIES = ["reply", "reply_time", "reply_pad", "none", "none", "report", "garbage", "reply"]
+REPLIES = ["foreign_report", "reply", "reply_time", "reply_pad", "none", "none", "report", "garbage", "reply"]
 
 
 def build_case(u):
